@@ -1,0 +1,24 @@
+//go:build verif
+
+package nodis
+
+import "sync/atomic"
+
+// Schedule points for the verification harness: with the verif tag a controller installed by
+// VerifSetController is called at the places where tx.go looks a key up, has acquired a key
+// lock, or is about to unlink a key.  Without the tag verifPoint is an empty function.
+var verifController atomic.Value // of func(point string)
+
+func verifPoint(point string) {
+	if c, ok := verifController.Load().(func(string)); ok && c != nil {
+		c(point)
+	}
+}
+
+// VerifSetController installs (or, with nil, removes) the controller.
+func VerifSetController(f func(point string)) {
+	if f == nil {
+		f = func(string) {}
+	}
+	verifController.Store(f)
+}
